@@ -55,6 +55,8 @@ Verdict(e) ==
        (IF contFirst THEN "demux-pmt-not-read-when-first-pmt-packet-is-a-continuation"
         ELSE "demux-pmt-not-read")
   ELSE IF ObsStreams(e.streams) # StreamView(pmt) \/ e.pids # PidList(pmt) THEN "demux-pmt-values"
+  \* the readers consume whole packets and nothing behind the packet that completed the table (the caller reads on)
+  ELSE IF e.rest_len # Len(e.stream) - (S!First(e.stream) + (188 * DoneIdx(pkts, k, SptsPid(pat)))) THEN "demux-reader-position-after-readpmt"
   ELSE LET sp == SctePkts(pkts, e.scte_pid) IN
   IF Len(sp) # Len(e.scte) THEN "harness-scte-count"
   ELSE IF \E i \in 1..Len(sp) : ~(LET pay == PktPayload(sp[i])  sec == e.scte[i].section IN
